@@ -145,6 +145,13 @@ func (h *Hist) Decide(op, target string) sim.Verdict {
 		}
 		return sim.OK
 	}
+	// "refresh-fail": the first DescribeAutoScalingGroups of this slot's scan fails (Refresh fails once:
+	// RunOnce sleeps 5 s, rebuilds the provider and carries on)
+	if op == sim.OpDescribeASG && h.SlotFlags["refresh-fail"] && h.scanActive {
+		h.SlotFlags["refresh-fail"] = false
+		h.Trace = append(h.Trace, "  fail asg.describe [refresh fails once]")
+		return sim.Fail
+	}
 	// "reject:<node>": every get / update / delete of that node fails during this slot's scan (an
 	// admission webhook or a broken object): one deviation, not one per call
 	if (op == sim.OpK8sGet || op == sim.OpK8sUpdate || op == sim.OpK8sDelete) && h.SlotFlags["reject:"+target] {
